@@ -1,4 +1,61 @@
-/- dsmodel_wire_cpc: wire-format model driver stub (filled in when the family group is built). -/
-def main (_args : List String) : IO UInt32 := do
-  IO.eprintln "dsmodel_wire_cpc: not built yet"
-  return 2
+/- dsmodel_wire_cpc: the documented CPC reader applied to images written by the real code.
+   IMG <kind> <hex> <seed>        -> `D <API content> | re=<0/1> rc=<0/1> size=<n> len=<n> minpfx=<n> layout=<name:off,...>` or `D REJECT`
+   PFX <kind> <hex> <seed>        -> one letter per strict prefix length 0..n-1: R reject / A accept
+   CORR <kind> <hex> <seed> <np>  -> one letter per (preamble byte position < np, replacement 0..7): R / A / `=` (same byte) -/
+import DSModel.Cpc.GenTabs
+import DSModel.Wire.CpcGen
+import DSModel.Wire.CpcContent
+import DSModel.DriverLoop
+open DS DS.Wire
+
+def hexToBytes (s : String) : Option Bytes := (parseHexBytes s).map (fun b => b.toList)
+
+def ofBitsF (b : Nat) : Float := Float.ofBits (UInt64.ofNat b)
+
+/-- full decode: layout + exact consumption + seed hash + the payload must expand -/
+def decodeFull (b : Bytes) (seed : Nat) : Option Cpc.Image :=
+  match Reader.runExact (Cpc.decode Cpc.generated) b with
+  | some img => if img.seedHash == (seedHash (UInt64.ofNat seed)).toNat then some img else none
+  | none => none
+
+def contentOf (img : Cpc.Image) : String :=
+  let (s, _) := Cpc.expand DS.Cpc.cpcTabs.comp DSGen.cpc_DESER_EMPTY_KXP_IS_K img ofBitsF
+  DS.Cpc.observe DS.Cpc.cpcTabs s
+
+def replacements (b : UInt8) : List UInt8 := [0x00, 0x01, 0x7F, 0x80, 0xFF, b ^^^ 1, b ^^^ 0x80, b + 1]
+
+def step (w : List String) : String :=
+  match w with
+  | ["IMG", _, hex, seed] =>
+    match hexToBytes hex, seed.toNat? with
+    | some b, some seed =>
+      match decodeFull b seed with
+      | none => "D REJECT"
+      | some img =>
+        let re := Cpc.encode Cpc.generated img == b
+        let (s, hb) := Cpc.expand DS.Cpc.cpcTabs.comp DSGen.cpc_DESER_EMPTY_KXP_IS_K img ofBitsF
+        -- canonical re-encoding through the compression model: the sketch the image stands for compresses to the same words
+        let img2 := Cpc.imageOf DS.Cpc.cpcTabs.comp img.seedHash s ⟨img.kxp, img.hip⟩
+        let rc := img2 == img || (img.coupons == 0 && hb.hip == 0)
+        let minpfx := ((List.range (b.length + 1)).find? (fun n => (decodeFull (b.take n) seed).isSome)).getD 0
+        let lay := ",".intercalate ((Cpc.layout img).map (fun p => s!"{p.1}:{p.2}"))
+        s!"D {contentOf img} | re={boolStr re} rc={boolStr rc} size={Cpc.serializedSize Cpc.generated img} len={b.length} minpfx={minpfx} layout={lay}"
+    | _, _ => "bad-op"
+  | ["PFX", _, hex, seed] =>
+    match hexToBytes hex, seed.toNat? with
+    | some b, some seed =>
+      let v := (List.range b.length).map (fun n => if (decodeFull (b.take n) seed).isSome then 'A' else 'R')
+      if v.isEmpty then "-" else String.ofList v
+    | _, _ => "bad-op"
+  | ["CORR", _, hex, seed, np] =>
+    match hexToBytes hex, seed.toNat?, np.toNat? with
+    | some b, some seed, some np =>
+      let v := (List.range (min np b.length)).flatMap (fun pos =>
+        let x := b.getD pos 0
+        (replacements x).map (fun y =>
+          if y == x then '=' else if (decodeFull (b.set pos y) seed).isSome then 'A' else 'R'))
+      if v.isEmpty then "-" else String.ofList v
+    | _, _, _ => "bad-op"
+  | _ => "bad-op"
+
+def main (_args : List String) : IO UInt32 := runDriver () (fun _ w => ((), step w))
